@@ -41,14 +41,15 @@ def definition_level(ctx: Ctx, RULE: str = "R10.c"):
     if fi is None:
         ctx.unknown(RULE, "xtce/definitions.py", "packet_generator not found")
         return
-    pk = [ccsds_bytes(bytes(range(1, 1 + n)), apid=5 + n, count=n) for n in (3, 1, 6)]
-    for skip in (0, 3):          # records with a per-packet prefix (skip_header_bytes): the option reaches the framer in every mode
+    # header-only mode hands out every framed packet, whatever its sequence flags say and whether or not combining is enabled
+    pk = [ccsds_bytes(bytes(range(1, 1 + n)), apid=5 + n, count=n, flags=fl) for n, fl in ((3, 1), (1, 0), (6, 2))]
+    for skip, comb in ((0, False), (3, False), (0, True)):          # records with a per-packet prefix (skip_header_bytes): the option reaches the framer in every mode
         stream = b"".join(bytes([0xE0 + i] * skip) + p for i, p in enumerate(pk))
         bounds = [0]
         for p in pk:
             bounds.append(bounds[-1] + skip + len(p))
         for kind in ("bytes", "file(read=4)", "socket closed by its peer"):
-            site = f"{fi.key}::cut at every byte::{kind}" + (f"::skip_header_bytes={skip}" if skip else "")
+            site = f"{fi.key}::cut at every byte::{kind}" + (f"::skip_header_bytes={skip}" if skip else "") + ("::combine_segmented_packets" if comb else "")
             bad = None
             try:
                 for cut in range(0, len(stream) + 1):
@@ -58,6 +59,8 @@ def definition_level(ctx: Ctx, RULE: str = "R10.c"):
                     kw = ", buffer_read_size_bytes=4" if kind.startswith("file") else ""
                     if skip:
                         kw += f", skip_header_bytes={skip}"
+                    if comb:
+                        kw += ", combine_segmented_packets=True"
                     d = model_definition(h.it, "CCSDSPacket")
                     try:
                         k, got = h.outcome(f"d.packet_generator(src, ccsds_headers_only=True{kw})", "xtce/definitions.py", d=d, src=src)
